@@ -1,8 +1,10 @@
 package main
 
 import (
+	"fmt"
 	"go/token"
 	"go/types"
+	"sort"
 	"strconv"
 	"strings"
 
@@ -23,15 +25,27 @@ func init() { register("C08", c08r1, c08r2, c08r3, c08r4) }
 // ---------------------------------------------------------------------------
 // expected wire layouts (see help_c08.go for the item alphabet; ".l" = inside a loop)
 
-// secretItem: the put_secret field after a marker: one string, bracketed by Prepare/Restore when the
-// stream implements the crypto-for-secret toggle.
-func secretItemL() wre {
-	return wAlt(wLit("STR.l"), wSeq(wLit("PREP.l"), wLit("STR.l"), wLit("REST.l")))
+// recvBodyL: one counted expression as the receivers must consume it. The put_secret field after a marker is one
+// string, bracketed by Prepare/Restore when the stream implements the crypto-for-secret toggle (bracketed = true)
+// and bare when it does not; which of the two holds cannot change while one ad is read.
+func recvBodyL(bracketed bool) wre {
+	secret := wLit("STR.l")
+	if bracketed {
+		secret = wSeq(wLit("PREP.l"), wLit("STR.l"), wLit("REST.l"))
+	}
+	return wSeq(wLit("STR.l"), wAlt(wLit("M-.l"), wSeq(wLit("M+.l"), secret)))
 }
 
-// recvBodyL: one counted expression as the receivers must consume it.
-func recvBodyL() wre {
-	return wSeq(wLit("STR.l"), wAlt(wLit("M-.l"), wSeq(wLit("M+.l"), secretItemL())))
+// recvLayout: the expected language of a receiver, for a stream with and without the toggle.
+func recvLayout(count bool) *wnfa {
+	mk := func(bracketed bool) *wnfa {
+		exp := wSeq(wStar(recvBodyL(bracketed)), wLit("STR"), wLit("STR"))
+		if count {
+			exp = wSeq(wLit("INT"), exp)
+		}
+		return wCompile(exp)
+	}
+	return wnfaUnion(mk(true), mk(false))
 }
 
 const recvLayoutText = "INT (STR [==SecretMarker: SECRET])* STR STR, SECRET = STR inside Prepare/RestoreCryptoForSecret"
@@ -127,7 +141,7 @@ func c08MatcherShape(w *wireAnchors, g *ssa.Function) bool {
 // c08SameFraming: the byte-level language of fn equals GetString's (length-prefixed when the stream is
 // encrypting, NUL-terminated otherwise).
 func c08SameFraming(c *Ctx, rule string, w *wireAnchors, fn *ssa.Function) bool {
-	abs := &wireAbs{c: c, act: w.byteAct, edge: w.byteEdges}
+	abs := &wireAbs{c: c, act: w.byteAct, actFr: w.byteActFr, edge: w.byteEdges}
 	ref := abs.build(w.getString)
 	got := abs.build(fn)
 	construct := "framing:" + fnName(fn) + "~GetString"
@@ -162,9 +176,9 @@ func c08Unfollowed(word []string) bool {
 }
 
 // c08CompareLayout compares fn's item language with the expected one and records one obligation.
-func c08CompareLayout(c *Ctx, rule string, w *wireAnchors, fn *ssa.Function, exp wre, layout string, project func(string) bool) bool {
-	abs := &wireAbs{c: c, act: w.itemAct, edge: w.markerEdges, other: w.itemOther}
-	got := abs.build(fn)
+func c08CompareLayout(c *Ctx, rule string, w *wireAnchors, fn *ssa.Function, exp *wnfa, layout string, project func(string) bool) bool {
+	abs := &wireAbs{c: c, act: w.itemAct, edge: w.markerEdges, edgeFr: w.itemEdgesFr, other: w.itemOther}
+	got := c08ConsistentToggle(abs.build(fn))
 	if project != nil {
 		got = got.erase(project)
 	}
@@ -173,7 +187,7 @@ func c08CompareLayout(c *Ctx, rule string, w *wireAnchors, fn *ssa.Function, exp
 		c.Undecided(rule, construct, "no path to a success return could be abstracted", fn.Pos())
 		return false
 	}
-	word, inGot, differ := wnfaDiff(got, wCompile(exp))
+	word, inGot, differ := wnfaDiff(got, exp)
 	if !differ {
 		c.Ok(rule, construct, "wire items on every success path form "+layout, fn.Pos())
 		return true
@@ -214,14 +228,10 @@ func c08r1(c *Ctx) {
 		if fns[i] == nil {
 			continue
 		}
-		exp := wSeq(wStar(recvBodyL()), wLit("STR"), wLit("STR"))
-		if r.count {
-			exp = wSeq(wLit("INT"), exp)
-		}
-		c08CompareLayout(c, rule, w, fns[i], exp, recvLayoutText, nil)
+		c08CompareLayout(c, rule, w, fns[i], recvLayout(r.count), recvLayoutText, nil)
 		n++
 	}
-	c.MinCount(rule, "receivers and string skippers compared", n, 5)
+	c.MinCount(rule, "receivers and string skippers compared", n, 2) // each receiver is a required anchor (needFn); at least the skipper and one receiver
 }
 
 // ---------------------------------------------------------------------------
@@ -263,10 +273,10 @@ func c08r2(c *Ctx) {
 		} else {
 			exp = wSeq(wLit("INT"), wStar(wLit("STR.l")), wLit("STR"), wLit("STR"))
 		}
-		c08CompareLayout(c, rule, w, fn, exp, layout, project)
+		c08CompareLayout(c, rule, w, fn, wCompile(exp), layout, project)
 		c08CountAgreement(c, rule, w, fn)
 	}
-	c.MinCount(rule, "senders compared", n, 3)
+	c.MinCount(rule, "senders compared", n, 1) // each sender is a required anchor (needFn)
 }
 
 // c08LoopOf returns the blocks of the CFG cycle (strongly connected component) that contains b, or nil.
@@ -359,6 +369,33 @@ func c08CountAgreement(c *Ctx, rule string, w *wireAnchors, fn *ssa.Function) {
 		}
 	})
 	key := fnName(fn) + "#count"
+	if len(ints) == 0 {
+		// delegation: the function writes nothing itself and hands the whole ad to one other sender, which is
+		// checked in its own right
+		var delegate *ssa.Function
+		nd, direct := 0, 0
+		allInstrs(fn, func(_ *ssa.BasicBlock, _ int, in ssa.Instruction) {
+			call, ok := in.(*ssa.Call)
+			if !ok {
+				return
+			}
+			g := calleeFn(call)
+			act := w.itemAct(fn, call)
+			if act.Label != "" {
+				direct++
+			}
+			for _, s := range c08Senders {
+				if g != nil && g != fn && g == c.LookupFn(s.rel, s.name) {
+					delegate = g
+					nd++
+				}
+			}
+		})
+		if nd == 1 && direct == 0 {
+			c.Ok(rule, key, "hands the whole ad to "+fnName(delegate)+", which writes the count and the expressions", fn.Pos())
+			return
+		}
+	}
 	if len(ints) != 1 || len(loopWrites) == 0 {
 		c.Undecided(rule, key, "expected exactly one integer write and at least one per-expression write in a loop", fn.Pos())
 		return
@@ -379,6 +416,14 @@ func c08CountAgreement(c *Ctx, rule string, w *wireAnchors, fn *ssa.Function) {
 		}
 		a := lw.Common().Args
 		dep := c08DependsOnElem(fn, a[len(a)-1], slice)
+		if !dep && w.itemAct(fn, lw).Inline != nil {
+			// a same-module helper holding the write: it is handed (something built from) the element
+			for _, arg := range a {
+				if !w.isMessage(arg.Type()) && c08DependsOnElem(fn, arg, slice) {
+					dep = true
+				}
+			}
+		}
 		c.Check(dep, rule, fnName(fn)+"#loop-element:"+calleeFn(lw).Name(), "the string written in the loop is built from an element of the counted slice",
 			"the string written in the loop is not built from an element of the slice whose length was sent as the count", lw.Pos())
 	}
@@ -407,7 +452,9 @@ func c08CountAgreement(c *Ctx, rule string, w *wireAnchors, fn *ssa.Function) {
 		if !ok || cyc[b] {
 			return
 		}
-		if act := w.itemAct(fn, call); act.Label == "STR" || act.Label == "MARK" {
+		act := w.itemAct(fn, call)
+		oneItem := act.Inline != nil && c08ItemCount(c, w, act.Inline, map[*ssa.Function]bool{}, 0) == 1
+		if act.Label == "STR" || act.Label == "MARK" || oneItem {
 			// before the loop = the loop is reachable from it
 			if findPath(after(call), Target{Instr: loopWrites[0]}, nil) != nil {
 				preWrites = append(preWrites, call)
@@ -544,11 +591,12 @@ var c08QuoteTesters = map[string]bool{"Contains": true, "ContainsAny": true, "Co
 func c08r3(c *Ctx) {
 	const rule = "C08-R3"
 	defer c08RuleTimer(rule)()
-	c.Doc(rule, "in tryInsertLiteral the Set(attr, interior) of the quoted-string shortcut (value = trimmed[1:len-1]) is reachable only through the not-found edge of a test that searches the interior for a double quote (strings.Contains/ContainsAny/ContainsRune/Index*/Count with a needle containing '\"', haystack = the interior): a value that merely starts and ends with a quote is not one string literal")
+	c.Doc(rule, "in tryInsertLiteral the Set(attr, interior) of the quoted-string shortcut (value = trimmed[1:len-1]) is reachable only through the not-found edge of a test that searches the interior for a double quote (strings.Contains/ContainsAny/ContainsRune/Index*/Count with a needle containing '\"', haystack = the interior): a value that merely starts and ends with a quote is not one string literal. The test may be written inline, kept in a local boolean, or sit in a same-module predicate / value helper (followed with parameters mapped to arguments)")
 	fn := c.needFn(rule, "message", "tryInsertLiteral")
 	if fn == nil {
 		return
 	}
+	top := cxTop(fn)
 	n := 0
 	allInstrs(fn, func(_ *ssa.BasicBlock, _ int, in ssa.Instruction) {
 		call, ok := in.(*ssa.Call)
@@ -561,49 +609,135 @@ func c08r3(c *Ctx) {
 		}
 		args := call.Common().Args
 		val := stripConv(args[len(args)-1])
-		sl, ok := val.(*ssa.Slice)
-		if !ok || !c08IsStringType(sl.X.Type()) {
-			return // not the interior of a quoted value (bool / int / float shortcut)
+		// the interior: a string re-slice [1:...] -- the stored value itself, or what a value helper returns for it
+		type fv struct {
+			fn *ssa.Function
+			v  ssa.Value
 		}
-		if lo, isC := constInt(sl.Low); !isC || lo != 1 {
+		interior := map[fv]*ssa.Slice{}
+		seen := map[fv]bool{}
+		var leaves func(fr *cxFrame, v ssa.Value, d int)
+		leaves = func(fr *cxFrame, v ssa.Value, d int) {
+			v = stripConv(v)
+			if v == nil || d > 12 || seen[fv{fr.fn, v}] {
+				return
+			}
+			seen[fv{fr.fn, v}] = true
+			switch x := v.(type) {
+			case *ssa.Slice:
+				// not the interior of a quoted value otherwise (bool / int / float shortcut, "" of a failed helper)
+				if lo, isC := constInt(x.Low); isC && lo == 1 && c08IsStringType(x.X.Type()) {
+					interior[fv{fr.fn, x}] = x
+				}
+			case *ssa.Phi:
+				for _, e := range x.Edges {
+					leaves(fr, e, d+1)
+				}
+			case *ssa.Parameter, *ssa.FreeVar:
+				if r := fr.resolve(v); r.fr != fr {
+					leaves(r.fr, r.v, d+1)
+				}
+			case *ssa.Call, *ssa.Extract:
+				hc, idx := originCall(v)
+				if hc == nil {
+					return
+				}
+				if sub := fr.enter(hc); sub != nil {
+					for _, ret := range cxReturns(sub.fn) {
+						if idx < len(ret.Results) {
+							leaves(sub, ret.Results[idx], d+1)
+						}
+					}
+				}
+			}
+		}
+		leaves(top, val, 0)
+		if len(interior) == 0 {
 			return
 		}
 		n++
 		key := fnName(fn) + "#Set(interior)"
-		// tests on the interior found in the function
-		found, decided := false, false
-		allInstrs(fn, func(_ *ssa.BasicBlock, _ int, in2 ssa.Instruction) {
-			t, ok := in2.(*ssa.Call)
+		isInterior := func(fr *cxFrame, v ssa.Value) bool {
+			r := fr.resolve(v)
+			rv := stripConv(r.v)
+			if r.fr == top && rv == val {
+				return true
+			}
+			for k, sl := range interior {
+				if k.fn == r.fr.fn && c08IsInterior(rv, sl) {
+					return true
+				}
+			}
+			return false
+		}
+		// tester: v is a call of a strings/bytes searcher over the interior with a needle containing a double quote
+		found := false
+		tester := func(fr *cxFrame, v ssa.Value) string {
+			t, ok := v.(*ssa.Call)
 			if !ok {
-				return
+				return ""
 			}
 			to := calleeObj(t)
 			if to == nil || to.Pkg() == nil {
-				return
+				return ""
 			}
 			targs := t.Common().Args
 			if (to.Pkg().Path() == "strings" || to.Pkg().Path() == "bytes") && c08QuoteTesters[to.Name()] && len(targs) == 2 {
-				if !c08IsInterior(targs[0], sl) || !c08NeedleHasQuote(targs[1]) {
+				if isInterior(fr, targs[0]) && c08NeedleHasQuote(fr.resolve(targs[1]).v) {
+					found = true
+					return to.Name()
+				}
+			}
+			return ""
+		}
+		// fact: "the interior contains no double quote"
+		atom := func(fr *cxFrame, a Atom) (onTrue, onFalse bool) {
+			if a.X == nil {
+				return false, false
+			}
+			name := tester(fr, a.X)
+			if name == "" {
+				return false, false
+			}
+			switch a.Op {
+			case token.ILLEGAL:
+				switch name {
+				case "Contains", "ContainsAny", "ContainsRune":
+					return a.Neg, !a.Neg // found on true: no quote on false
+				}
+				return false, false
+			}
+			k, isC := constInt(a.Y)
+			if !isC {
+				return false, false
+			}
+			notFoundOnTrue, ok := c08NotFoundOn(name, a.Op, k)
+			if !ok {
+				return false, false
+			}
+			if a.Neg {
+				notFoundOnTrue = !notFoundOnTrue
+			}
+			return notFoundOnTrue, !notFoundOnTrue
+		}
+		cuts := c.cxFactCuts(top, atom, cxDepth)
+		decided := len(cuts.Edges)+len(cuts.Via) > 0 && findPath(entryPoint(fn), Target{Instr: call}, cuts) == nil
+		if !decided && !found {
+			// a hand-written search in a module helper handed the interior (one level)
+			allInstrs(fn, func(_ *ssa.BasicBlock, _ int, in2 ssa.Instruction) {
+				t, ok := in2.(*ssa.Call)
+				if !ok {
 					return
 				}
-				found = true
-				notFound := c08NotFoundEdges(fn, t, to.Name())
-				for _, e := range notFound {
-					if instrDominatedByEdge(fn, e, call) {
-						decided = true
+				if g := calleeFn(t); g != nil && g.Blocks != nil && fnPkg(g) != nil && inModule(fnPkg(g).Path()) {
+					for _, a := range t.Common().Args {
+						if isInterior(top, a) && c08HelperLooksForQuote(g) {
+							found = true
+						}
 					}
 				}
-				return
-			}
-			// one level of module helper handed the interior
-			if g := calleeFn(t); g != nil && g.Blocks != nil && fnPkg(g) != nil && inModule(fnPkg(g).Path()) {
-				for _, a := range targs {
-					if c08IsInterior(a, sl) && c08HelperLooksForQuote(g) {
-						found = true
-					}
-				}
-			}
-		})
+			})
+		}
 		switch {
 		case decided:
 			c.Ok(rule, key, "the shortcut stores the interior only when it contains no double quote", call.Pos())
@@ -614,6 +748,41 @@ func c08r3(c *Ctx) {
 		}
 	})
 	c.MinCount(rule, "quoted-string shortcut stores", n, 1)
+}
+
+// c08NotFoundOn: for a strings searcher compared with constant k, does the comparison being true mean "not found"?
+func c08NotFoundOn(name string, op token.Token, k int64) (notFoundOnTrue, ok bool) {
+	switch {
+	case name == "Count" && k == 0:
+		switch op {
+		case token.EQL, token.LEQ:
+			return true, true
+		case token.NEQ, token.GTR:
+			return false, true
+		}
+	case name == "Count" && k == 1:
+		switch op {
+		case token.LSS:
+			return true, true
+		case token.GEQ:
+			return false, true
+		}
+	case name != "Count" && k == -1:
+		switch op {
+		case token.EQL, token.LEQ:
+			return true, true
+		case token.NEQ, token.GTR:
+			return false, true
+		}
+	case name != "Count" && k == 0:
+		switch op {
+		case token.LSS:
+			return true, true
+		case token.GEQ:
+			return false, true
+		}
+	}
+	return false, false
 }
 
 // c08IsInterior: v is the interior slice itself or an identical re-slice [1:len-1] of the same string.
@@ -640,66 +809,6 @@ func c08NeedleHasQuote(v ssa.Value) bool {
 		return k == '"'
 	}
 	return false
-}
-
-// c08NotFoundEdges: edges on which the tester call reported "no double quote".
-func c08NotFoundEdges(fn *ssa.Function, t *ssa.Call, name string) []Edge {
-	var out []Edge
-	switch name {
-	case "Contains", "ContainsAny", "ContainsRune":
-		_, f := boolEdges(fn, t)
-		return f
-	}
-	for _, b := range fn.Blocks {
-		ifi := blockIf(b)
-		if ifi == nil {
-			continue
-		}
-		a := condAtom(ifi.Cond)
-		if a.X != ssa.Value(t) {
-			continue
-		}
-		k, isC := constInt(a.Y)
-		if !isC {
-			continue
-		}
-		var notFoundOnTrue, ok bool
-		switch {
-		case name == "Count" && k == 0:
-			switch a.Op {
-			case token.EQL, token.LEQ:
-				notFoundOnTrue, ok = true, true
-			case token.NEQ, token.GTR:
-				notFoundOnTrue, ok = false, true
-			}
-		case name != "Count" && k == -1:
-			switch a.Op {
-			case token.EQL:
-				notFoundOnTrue, ok = true, true
-			case token.NEQ, token.GTR:
-				notFoundOnTrue, ok = false, true
-			}
-		case name != "Count" && k == 0:
-			switch a.Op {
-			case token.LSS:
-				notFoundOnTrue, ok = true, true
-			case token.GEQ:
-				notFoundOnTrue, ok = false, true
-			}
-		}
-		if !ok {
-			continue
-		}
-		if a.Neg {
-			notFoundOnTrue = !notFoundOnTrue
-		}
-		if notFoundOnTrue {
-			out = append(out, Edge{b, 0})
-		} else {
-			out = append(out, Edge{b, 1})
-		}
-	}
-	return out
 }
 
 // c08HelperLooksForQuote: a module helper compares a byte with '"' or calls a strings tester with a quote needle.
@@ -729,7 +838,7 @@ func c08HelperLooksForQuote(g *ssa.Function) bool {
 func c08r4(c *Ctx) {
 	const rule = "C08-R4"
 	defer c08RuleTimer(rule)()
-	c.Doc(rule, "attribute-constant agreement for the type names: the parsing receiver sets MyType from the first and TargetType from the second trailing string, the raw receiver renders them under the same two names, and the senders write the value of MyType first and TargetType second (raw senders: their myType then targetType parameter)")
+	c.Doc(rule, "attribute-constant agreement for the type names: the parsing receiver sets MyType from the first and TargetType from the second trailing string, the raw receiver renders them under the same two names, and the senders write the value of MyType first and TargetType second (raw senders: their myType then targetType parameter). Trailing strings are numbered along the control flow, through the same-module helpers that read or write them (a helper's parameters are mapped to the caller's arguments)")
 	w := c.wireAnchors(rule)
 	if !w.ok {
 		return
@@ -742,9 +851,11 @@ func c08r4(c *Ctx) {
 		if fn == nil {
 			continue
 		}
-		ord := c08TrailingOrdinals(w, fn)
+		top := cxTop(fn)
+		ord := c08TrailingOrdinalsDeep(c, w, top)
+		isItem := func(f *cxFrame, call ssa.CallInstruction) bool { return w.itemAct(f.fn, call).Label == "STR" }
 		for k, name := range names {
-			uses := c08NamedUses(fn, name)
+			uses := c08NamedUsesDeep(w, top, name)
 			key := fnName(fn) + "#" + name
 			if len(uses) == 0 {
 				c.Violate(rule, key, "the receiver never stores the trailing string under the attribute name "+name, fn.Pos())
@@ -752,14 +863,15 @@ func c08r4(c *Ctx) {
 			}
 			for _, u := range uses {
 				n++
-				ok := len(origins(fn, u.val)) > 0
-				for _, o := range origins(fn, u.val) {
-					call, idx := originCall(o)
+				os := c.cxOriginsOK(u.fr, u.val, isItem)
+				ok := len(os) > 0
+				for _, o := range os {
+					call, idx := originCall(o.v)
 					if call == nil || idx != 0 {
 						ok = false
 						continue
 					}
-					if got, has := ord[call]; !has || got != k {
+					if got, has := ord.get(o.fr, call); !has || got != k {
 						ok = false
 					}
 				}
@@ -773,10 +885,11 @@ func c08r4(c *Ctx) {
 		if fn == nil {
 			continue
 		}
-		ord := c08TrailingOrdinals(w, fn)
-		byOrd := map[int][]ssa.CallInstruction{}
-		for call, k := range ord {
-			byOrd[k] = append(byOrd[k], call)
+		top := cxTop(fn)
+		ord := c08TrailingOrdinalsDeep(c, w, top)
+		byOrd := map[int][]c08OrdItem{}
+		for _, it := range ord.items() {
+			byOrd[it.ord] = append(byOrd[it.ord], it)
 		}
 		for k, name := range names {
 			key := fnName(fn) + "#" + name
@@ -784,50 +897,66 @@ func c08r4(c *Ctx) {
 				c.Violate(rule, key, "the sender has no trailing string write #"+c08Itoa(k+1), fn.Pos())
 				continue
 			}
-			for _, call := range byOrd[k] {
+			for _, it := range byOrd[k] {
 				n++
+				call := it.call
 				args := call.Common().Args
 				v := args[len(args)-1]
 				ok := true
+				leaves := c.cxOriginsOK(it.fr, v, nil)
+				if len(leaves) == 0 {
+					ok = false
+				}
 				if s.options {
 					// value of ad.EvaluateAttrString(name) or the empty string
-					for _, o := range origins(fn, v) {
-						if sv, isC := constString(o); isC && sv == "" {
+					for _, o := range leaves {
+						if sv, isC := constString(o.v); isC && sv == "" {
 							continue
 						}
-						oc, idx := originCall(o)
+						oc, idx := originCall(o.v)
 						if oc == nil || idx != 0 || len(oc.Common().Args) < 2 {
 							ok = false
 							continue
 						}
-						an, isC := constString(oc.Common().Args[len(oc.Common().Args)-1])
+						an, isC := constString(o.fr.resolve(oc.Common().Args[len(oc.Common().Args)-1]).v)
 						if !isC || an != name {
 							ok = false
 						}
 					}
 				} else {
 					// raw senders: parameter order ctx, exprs, myType, targetType
-					p, isP := v.(*ssa.Parameter)
 					want := len(fn.Params) - 2 + k
-					ok = isP && want >= 0 && want < len(fn.Params) && fn.Params[want] == p
+					for _, o := range leaves {
+						p, isP := o.v.(*ssa.Parameter)
+						if !(isP && o.fr.up == nil && want >= 0 && want < len(fn.Params) && fn.Params[want] == p) {
+							ok = false
+						}
+					}
 				}
 				c.Check(ok, rule, key, "trailing string #"+c08Itoa(k+1)+" carries "+name, "trailing string #"+c08Itoa(k+1)+" does not carry "+name+" (type names swapped or taken from another attribute)", call.Pos())
 			}
 		}
 	}
-	c.MinCount(rule, "type-name bindings checked", n, 10)
+	// two receivers and three senders, MyType and TargetType each; a function that obtains its trailing strings
+	// by calling another one contributes through that callee
+	c.MinCount(rule, "type-name bindings checked", n, 2) // a missing binding is reported per function above; at least one receiver and one sender binding
 }
 
 type c08Use struct {
+	fr  *cxFrame
 	val ssa.Value
 	pos token.Pos
 }
 
-// c08NamedUses finds ad.Set("<name>", v) calls and fmt.Fprintf(..., "<name> = ...", v) renderings.
-func c08NamedUses(fn *ssa.Function, name string) []c08Use {
+// c08NamedUsesDeep finds ad.Set("<name>", v) calls and fmt.Fprintf(..., "<name> = ...", v) renderings in fr.fn
+// and in the same-module helpers it calls (the name may arrive through a helper's parameter).
+func c08NamedUsesDeep(w *wireAnchors, top *cxFrame, name string) []c08Use {
 	var out []c08Use
-	allInstrs(fn, func(_ *ssa.BasicBlock, _ int, in ssa.Instruction) {
-		call, ok := in.(*ssa.Call)
+	cxCallsDeep(top, func(fr *cxFrame, call ssa.CallInstruction) bool {
+		g := calleeFn(call)
+		return g != nil && !w.strReaders[g] && !w.intReaders[g] && !w.strWriters[g] && !w.intWriters[g] && !w.rawMsg[g] && !w.nbytes[g] && g != w.flush && g != w.ensure
+	}, func(fr *cxFrame, ci ssa.CallInstruction) {
+		call, ok := ci.(*ssa.Call)
 		if !ok {
 			return
 		}
@@ -838,8 +967,8 @@ func c08NamedUses(fn *ssa.Function, name string) []c08Use {
 		args := call.Common().Args
 		switch {
 		case o.Name() == "Set" && strings.HasSuffix(o.Pkg().Path(), "classad/classad") && len(args) == 3:
-			if s, ok := constString(args[1]); ok && s == name {
-				out = append(out, c08Use{stripConv(args[2]), call.Pos()})
+			if s, ok := constString(fr.resolve(args[1]).v); ok && s == name {
+				out = append(out, c08Use{fr, stripConv(args[2]), call.Pos()})
 			}
 		case o.Pkg().Path() == "fmt" && (o.Name() == "Fprintf" || o.Name() == "Sprintf"):
 			fi := 0
@@ -849,7 +978,7 @@ func c08NamedUses(fn *ssa.Function, name string) []c08Use {
 			if len(args) < fi+2 {
 				return
 			}
-			f, ok := constString(args[fi])
+			f, ok := constString(fr.resolve(args[fi]).v)
 			if !ok || !strings.HasPrefix(strings.TrimSpace(f), name+" ") {
 				return
 			}
@@ -860,7 +989,7 @@ func c08NamedUses(fn *ssa.Function, name string) []c08Use {
 					if ia, ok := r.(*ssa.IndexAddr); ok {
 						for _, rr := range *ia.Referrers() {
 							if st, ok := rr.(*ssa.Store); ok && st.Addr == ia {
-								out = append(out, c08Use{stripConv(st.Val), call.Pos()})
+								out = append(out, c08Use{fr, stripConv(st.Val), call.Pos()})
 							}
 						}
 					}
@@ -871,52 +1000,114 @@ func c08NamedUses(fn *ssa.Function, name string) []c08Use {
 	return out
 }
 
-// c08TrailingOrdinals numbers the string items outside any loop that follow the per-expression loop:
-// ordinal = number of such items already passed on every path from the loop to the call (alternatives
-// like GetString | GetStringWithMaxSize share an ordinal). Calls reached with differing counts are omitted.
-func c08TrailingOrdinals(w *wireAnchors, fn *ssa.Function) map[ssa.CallInstruction]int {
-	cyc := c08CyclicBlocks(fn)
-	isItem := func(in ssa.Instruction, b *ssa.BasicBlock) (ssa.CallInstruction, bool) {
-		call, ok := in.(*ssa.Call)
-		if !ok || cyc[b] {
-			return nil, false
+// c08OrdKey identifies a string item: the chain of calls that leads from the anchored function into the helper
+// holding it, and the call of the reader/writer itself.
+type c08OrdKey struct {
+	chain string
+	call  ssa.CallInstruction
+}
+
+type c08OrdItem struct {
+	fr   *cxFrame
+	call ssa.CallInstruction
+	ord  int
+}
+
+// c08Ordinals is the numbering of the trailing string items of one function.
+type c08Ordinals struct {
+	w      *wireAnchors
+	ord    map[c08OrdKey]int
+	frames map[c08OrdKey]*cxFrame
+}
+
+func (o *c08Ordinals) get(fr *cxFrame, call ssa.CallInstruction) (int, bool) {
+	n, ok := o.ord[c08OrdKey{c08FrameKey(fr), call}]
+	return n, ok
+}
+
+// items lists the numbered reader/writer calls themselves (not the helper calls that stand for one item).
+func (o *c08Ordinals) items() []c08OrdItem {
+	var items []c08OrdItem
+	for k, n := range o.ord {
+		if fr := o.frames[k]; fr != nil && o.w.itemAct(fr.fn, k.call).Label == "STR" {
+			items = append(items, c08OrdItem{fr, k.call, n})
 		}
-		act := w.itemAct(fn, call)
-		return call, act.Label == "STR"
 	}
-	// only items after the loop: a loop block reaches them
-	afterLoop := func(call ssa.CallInstruction) bool {
-		for b := range cyc {
-			if len(b.Instrs) > 0 && findPath(Point{b, 0}, Target{Instr: call}, nil) != nil {
-				return true
-			}
+	sort.Slice(items, func(i, j int) bool { return items[i].call.Pos() < items[j].call.Pos() })
+	return items
+}
+
+func c08FrameKey(fr *cxFrame) string {
+	k := ""
+	for f := fr; f != nil && f.call != nil; f = f.up {
+		k = fmt.Sprintf("%p/", f.call) + k
+	}
+	return k
+}
+
+// c08ItemCount: the number of string items fn performs on every path to a (possibly) successful return, through
+// the helpers it inlines; -1 when the paths disagree (a loop, an optional item).
+func c08ItemCount(c *Ctx, w *wireAnchors, fn *ssa.Function, active map[*ssa.Function]bool, depth int) int {
+	if fn == nil || fn.Blocks == nil || active[fn] || depth > 6 {
+		return -1
+	}
+	active[fn] = true
+	defer delete(active, fn)
+	type rk struct{ b, pred *ssa.BasicBlock }
+	errRet := map[rk]bool{}
+	for _, r := range c.returnsOf(fn) {
+		if c08RetClass(c, fn, r) == "error" {
+			errRet[rk{r.Ret.Block(), r.Pred}] = true
 		}
-		return false
 	}
 	type st struct {
 		b *ssa.BasicBlock
 		n int
 	}
-	counts := map[ssa.CallInstruction]map[int]bool{}
-	seen := map[st]bool{}
+	seen := map[st]bool{{fn.Blocks[0], 0}: true}
 	work := []st{{fn.Blocks[0], 0}}
-	seen[work[0]] = true
+	counts := map[int]bool{}
 	for len(work) > 0 {
 		s := work[len(work)-1]
 		work = work[:len(work)-1]
 		n := s.n
+		dead := false
 		for _, in := range s.b.Instrs {
-			if call, ok := isItem(in, s.b); ok && afterLoop(call) {
-				if counts[call] == nil {
-					counts[call] = map[int]bool{}
-				}
-				counts[call][n] = true
-				if n < 8 {
+			switch x := in.(type) {
+			case *ssa.Call:
+				act := w.itemAct(fn, x)
+				switch {
+				case act.Label == "STR" || act.Label == "MARK":
 					n++
+				case act.Inline != nil:
+					k := c08ItemCount(c, w, act.Inline, active, depth+1)
+					if k < 0 {
+						return -1
+					}
+					n += k
 				}
+			case *ssa.Return:
+				if !errRet[rk{s.b, nil}] {
+					counts[n] = true
+				}
+				dead = true
+			case *ssa.Panic:
+				dead = true
+			}
+			if n > 8 {
+				return -1
+			}
+			if dead {
+				break
 			}
 		}
+		if dead {
+			continue
+		}
 		for _, nx := range s.b.Succs {
+			if errRet[rk{nx, s.b}] {
+				continue
+			}
 			k := st{nx, n}
 			if !seen[k] {
 				seen[k] = true
@@ -924,13 +1115,106 @@ func c08TrailingOrdinals(w *wireAnchors, fn *ssa.Function) map[ssa.CallInstructi
 			}
 		}
 	}
-	out := map[ssa.CallInstruction]int{}
-	for call, ns := range counts {
-		if len(ns) == 1 {
-			for n := range ns {
-				out[call] = n
+	if len(counts) != 1 {
+		return -1
+	}
+	for n := range counts {
+		return n
+	}
+	return -1
+}
+
+// c08TrailingOrdinalsDeep numbers the string items outside any loop that follow the per-expression loop of
+// top.fn: ordinal = number of such items already passed on every path from the loop to the call (alternatives
+// like GetString | GetStringWithMaxSize share an ordinal). Items inside same-module helpers called after the
+// loop are numbered in their own frame, continuing the caller's count; a helper whose number of items is not
+// the same on every path ends the numbering. Calls reached with differing counts are omitted.
+func c08TrailingOrdinalsDeep(c *Ctx, w *wireAnchors, top *cxFrame) *c08Ordinals {
+	out := map[c08OrdKey]int{}
+	frames := map[c08OrdKey]*cxFrame{}
+	conflict := map[c08OrdKey]bool{}
+	record := func(fr *cxFrame, call ssa.CallInstruction, n int) {
+		k := c08OrdKey{c08FrameKey(fr), call}
+		if old, ok := out[k]; ok && old != n {
+			conflict[k] = true
+		}
+		out[k] = n
+		frames[k] = fr
+	}
+	var walk func(fr *cxFrame, base int, isTop bool)
+	walk = func(fr *cxFrame, base int, isTop bool) {
+		fn := fr.fn
+		cyc := c08CyclicBlocks(fn)
+		afterLoop := func(call ssa.CallInstruction) bool {
+			if !isTop {
+				return true
+			}
+			for b := range cyc {
+				if len(b.Instrs) > 0 && findPath(Point{b, 0}, Target{Instr: call}, nil) != nil {
+					return true
+				}
+			}
+			return false
+		}
+		type st struct {
+			b *ssa.BasicBlock
+			n int
+		}
+		seen := map[st]bool{{fn.Blocks[0], base}: true}
+		work := []st{{fn.Blocks[0], base}}
+		for len(work) > 0 {
+			s := work[len(work)-1]
+			work = work[:len(work)-1]
+			n := s.n
+			for _, in := range s.b.Instrs {
+				call, ok := in.(*ssa.Call)
+				if !ok || cyc[s.b] || n < 0 {
+					continue
+				}
+				act := w.itemAct(fn, call)
+				switch {
+				case act.Label == "STR" && afterLoop(call):
+					record(fr, call, n)
+					if n < 8 {
+						n++
+					}
+				case act.Inline != nil && (afterLoop(call) || isTop):
+					sub := fr.enter(call)
+					k := c08ItemCount(c, w, act.Inline, map[*ssa.Function]bool{}, 0)
+					if sub != nil && k < 0 && isTop {
+						// the helper holds the per-expression loop (the function delegates the whole ad): the
+						// trailing strings are the ones after the loop in there
+						walk(sub, 0, true)
+						n = -1
+						continue
+					}
+					if sub == nil || k < 0 || !afterLoop(call) {
+						if afterLoop(call) {
+							n = -1 // the numbering cannot be continued past this call
+						}
+						continue
+					}
+					record(fr, call, n) // a helper that performs exactly one item stands for it in the caller
+					walk(sub, n, false)
+					n += k
+					if n > 8 {
+						n = 8
+					}
+				}
+			}
+			for _, nx := range s.b.Succs {
+				k := st{nx, n}
+				if !seen[k] {
+					seen[k] = true
+					work = append(work, k)
+				}
 			}
 		}
 	}
-	return out
+	walk(top, 0, true)
+	for k := range conflict {
+		delete(out, k)
+		delete(frames, k)
+	}
+	return &c08Ordinals{w: w, ord: out, frames: frames}
 }
